@@ -35,8 +35,20 @@ func c04X1(r *core.R) {
 				v.unknown("token@"+root.name, e.Node.Pos(), "`%s`: Encoder call / token kind written by hand that the rule does not enumerate", src(r.P.Fset, e.Call))
 			}
 			c04X1Root(r, &v, tbl, root, tr)
-			for _, em := range tr.emits {
+			written := map[string]*c04Emit{}
+			for i := range tr.emits {
+				em := tr.emits[i]
 				c04X1Emit(r, &v, root, tr, em)
+				// a field is written once per path: a second Encode of the same field duplicates its elements on reading
+				if em.path != nil {
+					key := c04PathString(root.tname, em.path)
+					if first := written[key]; first != nil {
+						_, owner, _, _ := c04View(root.T, em.path)
+						v.bad("emit "+c03TypeName(owner)+"."+em.path[len(em.path)-1].Name(), em.ev.Node.Pos(), "%s is written twice on one path (`%s` and `%s`): reading the document back yields it twice, or once under a name no decoder reads", key, src(r.P.Fset, first.ev.Call), src(r.P.Fset, em.ev.Call))
+					} else {
+						written[key] = &tr.emits[i]
+					}
+				}
 			}
 		}
 	}
